@@ -169,3 +169,52 @@ Proof.
   replace (B_R =? B_HASANTA) with false by reflexivity. replace (B_R =? B_LENGTH_MARK) with false by reflexivity.
   cbn [andb]. unfold push_str. rewrite rev_app_distr, rev_involutive. reflexivity.
 Qed.
+
+(** ** The declarative form of the placement clause: p = q ++ conjunct ++ optional vowel (sign) ++ optional chandrabindu *)
+Lemma conjunct_snoc r c : conjunct r -> is_pure_consonant c = true -> conjunct (r ++ [B_HASANTA; c]).
+Proof. induction 1 as [c0 H0 | c0 l H0 Hl IH]; intros Hc; cbn [app]; [apply conj_more; [exact H0 | apply conj_one; exact Hc] | apply conj_more; [exact H0 | apply IH; exact Hc]]. Qed.
+
+Lemma conjunct_rev l : conjunct l -> conjunct (rev l).
+Proof.
+  induction 1 as [c H0 | c l H0 Hl IH]; cbn [rev]; [apply conj_one; exact H0|].
+  rewrite <- app_assoc. cbn [app]. apply conjunct_snoc; assumption.
+Qed.
+
+Lemma conjunct_hd l : conjunct l -> is_pure_consonant (hd 0 l) = true /\ l <> [].
+Proof. destruct 1; cbn; split; auto; discriminate. Qed.
+
+Lemma conj_rest_stop t : (hd 0 t =? B_HASANTA) = false -> conj_rest t = O.
+Proof. destruct t as [|h [|c t']]; cbn [conj_rest hd]; intros H; [reflexivity | reflexivity | rewrite H; reflexivity]. Qed.
+
+Lemma conj_len_conjunct r t : conjunct r -> (hd 0 t =? B_HASANTA) = false -> conj_len (r ++ t) = length r.
+Proof.
+  intros Hr Ht. induction Hr as [c H0 | c l H0 Hl IH].
+  - cbn [app conj_len length]. rewrite H0, (conj_rest_stop t Ht). reflexivity.
+  - destruct (conjunct_hd l Hl) as [Hc' Hne]. destruct l as [|c' l']; [congruence|]. cbn [hd] in Hc'.
+    cbn [app conj_len length conj_rest] in *. rewrite H0. replace (B_HASANTA =? B_HASANTA) with true by reflexivity. rewrite Hc'. cbn [andb].
+    rewrite Hc' in IH. inversion IH as [E]. rewrite E. reflexivity.
+Qed.
+
+Lemma reph_placement_grammar q cj v ch :
+  conjunct cj -> (v = [] \/ exists x, v = [x] /\ is_vowel x = true) -> (ch = [] \/ ch = [B_CHANDRA]) ->
+  (last q 0 =? B_HASANTA) = false ->
+  reph_spec (q ++ cj ++ v ++ ch) = q ++ reph ++ cj ++ v ++ ch.
+Proof.
+  intros Hcj Hv Hch Hq.
+  assert (Hq' : (hd 0 (rev q) =? B_HASANTA) = false). { rewrite <- last_rev_hd, rev_involutive. exact Hq. }
+  pose proof (conjunct_rev cj Hcj) as Hr. destruct (conjunct_hd _ Hr) as [Hc0 Hne].
+  assert (CL : conj_len (rev cj ++ rev q) = length cj) by (rewrite (conj_len_conjunct _ _ Hr Hq'), rev_length; reflexivity).
+  assert (Span : reph_span (rev (q ++ cj ++ v ++ ch)) = (length cj + length v + length ch)%nat).
+  { rewrite !rev_app_distr, <- !app_assoc. unfold reph_span.
+    destruct (rev cj) as [|c0 rc] eqn:Erc; [congruence|]. cbn [hd] in Hc0. destruct (cons_facts c0 Hc0) as (C1 & C2 & C3). cbn [app] in CL.
+    assert (Lpos : exists k, length cj = S k) by (destruct cj; [inversion Hcj | eexists; reflexivity]). destruct Lpos as [k Ek].
+    destruct Hch as [-> | ->], Hv as [-> | (x & -> & Hx)]; cbn [rev app length].
+    - rewrite C2, C3, CL, Ek. lia.
+    - destruct (vowel_facts x Hx) as (V1 & V2 & V3). rewrite V3, Hx, CL, Ek. lia.
+    - replace (B_CHANDRA =? B_CHANDRA) with true by reflexivity. rewrite C3, CL, Ek. lia.
+    - replace (B_CHANDRA =? B_CHANDRA) with true by reflexivity. rewrite Hx, CL, Ek. lia. }
+  unfold reph_spec. rewrite Span, !app_length.
+  replace (length q + (length cj + (length v + length ch)) - (length cj + length v + length ch))%nat with (length q) by lia.
+  rewrite firstn_app, firstn_all, PeanoNat.Nat.sub_diag. cbn [firstn]. rewrite app_nil_r.
+  rewrite skipn_app, skipn_all, PeanoNat.Nat.sub_diag. cbn [skipn app]. reflexivity.
+Qed.
